@@ -23,7 +23,8 @@ PROP = "C16"
 SAMPLES = {
     "S1": [{"id": 1, "name": "a", "tag": {"k": "x"}}, {"id": 2, "name": "b", "tag": None},
            {"id": "3", "name": "c", "extra": [1]}, {"id": 4, "name": "a", "tag": {"k": "y", "z": 1.5}}],
-    "S2": [{"a1": {"x": 1, "y": 2, "z": 3}, "m": {"k1": {"q": 1}}, "dict_field": {"u": 1, "v": "s"}, "mix": {"k1": {"q": 1}, "zz": {"q": 2}}},
+    "S2": [{"a1": {"x": 1, "y": 2, "z": 3}, "m": {"k1": {"q": 1}}, "dict_field": {"u": 1, "v": "s"}, "mix": {"k1": {"q": 1}, "zz": {"q": 2}},
+            "p1": {"fa": 1, "fb": 2, "fc": 3, "fd": 4}, "p2": {"fa": 1, "fb": 2, "fc": 3, "fe": 5}},     # 60 % / 3 shared keys
            {"a1": {"x": 1, "y": 2, "z": 3, "w": 4}, "m": {"k2": {"q": 2}}, "b": {"x": 1, "y": 5}},
            {"b": {"x": 2, "y": 5, "z": 6, "w": 7}, "when": "2020-01-01", "dict_field": {"t": 2}}],
     "S3": [{"s": "1", "t": "true", "d": "2020-01-01T10:00:00", "l": "lit", "ключ": "ü", "u": "x\u2028y", "k\u0085ey": 1},
@@ -44,6 +45,8 @@ OPTIONS = {
     "merge_percent_50": (["--merge", "percent_50"], {"merge": [("percent", 0.5)]}),
     "merge_number_2": (["--merge", "number_2"], {"merge": [("number", 2)]}),
     "merge_percent_50_number_3": (["--merge", "percent_50", "number_3"], {"merge": [("percent", 0.5), ("number", 3)]}),
+    "merge_percent_50_percent_90": (["--merge", "percent_50", "percent_90"], {"merge": [("percent", 0.5), ("percent", 0.9)]}),
+    "merge_number_4_number_2": (["--merge", "number_4", "number_2"], {"merge": [("number", 4), ("number", 2)]}),
     "dkr": (["--dkr", r"k\d", "zz"], {"dkr": [r"k\d", "zz"]}),
     "dkf": (["--dkf", "dict_field"], {"dkf": ["dict_field"]}),
     "datetime": (["--datetime"], {"datetime": True}),
